@@ -5,6 +5,7 @@ import (
 	"go/ast"
 	"go/constant"
 	"go/token"
+	"golang.org/x/tools/go/ssa"
 	"regexp"
 	"sort"
 	"strings"
@@ -14,7 +15,7 @@ import (
 
 func init() {
 	register("C46", []string{"."}, runC46)
-	propExplain["C46"] = "Decides the key-agreement clause of C46: every `section.key` that Options.String emits with a data-bearing verb has a non-empty case for that key in the matching section of Options.Parse (sections and keys are extracted on every run from the constant format strings of the Fprintf/Fprintln calls and from Parse's section/key switches), and for keys printed directly from a field of Options / LevelOptions / the value-separation or failover structs the same first-level field is assigned in that key's case. Does not decide that a parsed value formats back identically (value-level)."
+	propExplain["C46"] = "Decides the key-agreement clause of C46: every `section.key` that Options.String emits with a data-bearing verb has a non-empty case for that key in the matching section of Options.Parse (sections and keys are extracted on every run from the constant format strings of the Fprintf/Fprintln calls and from Parse's section/key switches), and for keys printed directly from a field of Options / LevelOptions / the value-separation or failover structs the same first-level field is assigned in that key's case. (S1) parseOptions separates key and value at the first '=' of a line (first-occurrence primitives only): values are free-form and may contain '='. Does not decide that a parsed value formats back identically (value-level)."
 }
 
 type optKey struct {
@@ -50,7 +51,60 @@ func selectorNames(exprs []ast.Expr) map[string]bool {
 	return out
 }
 
+// runC46S1: Options.String writes `key=value` lines whose values are free-form (comparer / merger
+// names, directory paths) and may themselves contain '='. The parser therefore separates key and
+// value at the FIRST '=' of the line: in parseOptions the searches for the "=" separator use a
+// first-occurrence primitive (strings.Index / IndexByte / Cut / SplitN(…, 2)) and never one that
+// splits at every or at the last occurrence.
+func runC46S1(c *Ctx) {
+	fn := c.Fn("C46.S1", "p.parseOptions")
+	if fn == nil {
+		return
+	}
+	first := map[string]bool{"Index": true, "IndexByte": true, "Cut": true, "SplitN": true, "IndexRune": true}
+	wrong := map[string]bool{"Split": true, "SplitAfter": true, "LastIndex": true, "LastIndexByte": true, "FieldsFunc": true, "SplitAfterN": true}
+	nFirst := 0
+	for _, b := range fn.Blocks {
+		for _, in := range b.Instrs {
+			call, ok := in.(*ssa.Call)
+			if !ok {
+				continue
+			}
+			cal := call.Common().StaticCallee()
+			if cal == nil || cal.Pkg == nil || cal.Pkg.Pkg.Path() != "strings" {
+				continue
+			}
+			hasEq := false
+			for _, a := range call.Common().Args {
+				if k, ok := a.(*ssa.Const); ok && k.Value != nil && (k.Value.ExactString() == `"="` || k.Value.ExactString() == "61") {
+					hasEq = true
+				}
+			}
+			if !hasEq {
+				continue
+			}
+			switch {
+			case wrong[cal.Name()]:
+				c.Ob("C46.S1", fn, "key and value are separated at the first '='", c.P.Pos(call.Pos()), false,
+					"strings."+cal.Name()+` with "=" splits at every (or the last) occurrence: a value that contains '=' (a path, a comparer or merger name) is truncated, so Parse(o.String()) differs from o and CheckCompatibility rejects the store's own OPTIONS file`)
+			case first[cal.Name()]:
+				okk := true
+				if cal.Name() == "SplitN" {
+					n, isK := constInt(call.Common().Args[len(call.Common().Args)-1])
+					okk = isK && n == 2
+				}
+				nFirst++
+				c.Ob("C46.S1", fn, "key and value are separated at the first '='", c.P.Pos(call.Pos()), okk, map[bool]string{true: "", false: "SplitN with a limit other than 2 splits the value as well"}[okk])
+			}
+		}
+	}
+	if nFirst == 0 {
+		c.Unresolved("C46.S1", `no first-occurrence search for "=" found in parseOptions`)
+	}
+}
+
 func runC46(c *Ctx) {
+	runC46S1(c)
 	sfn := c.Fn("C46.K1", "p.(*Options).String")
 	pfn := c.Fn("C46.K1", "p.(*Options).Parse")
 	if sfn == nil || pfn == nil {
